@@ -12,12 +12,15 @@ from ..core import Ctx
 PID = "C03"
 
 
-def gate_pairs(prog):
+def gate_pairs(prog, prefix=""):
+    """(gate path, target path) for every gate of every (nested) graph."""
     for n in prog["nodes"]:
         if n["kind"] in ("route", "ifelse"):
             for t in n["targets"]:
                 if t != "END":
-                    yield n["name"], t
+                    yield prefix + n["name"], prefix + t
+        if n["kind"] == "graph":
+            yield from gate_pairs(n["sub"], prefix + n["name"] + "/")
 
 
 def compare(ctx, job, m, o, tag, failed):
@@ -59,6 +62,19 @@ def make_pairs(tier, rng):
                 if rng.random() < 0.5:      # node names that contain one another (decisions are compared by name)
                     p2 = gen.rename_nodes(prog, {"A": "step", "B": "step_b", "C": "b"})
                 pairs.append((gen.job(0, p2, prov, mode=mode), ("cyc/" if cyc else "dag/") + tag))
+    # the same gated programs INSIDE a nested graph (gate and targets live in the inner frame)
+    nested = []
+    for j, tag in pairs:
+        if not tag.startswith("dag/") or (not thorough and rng.random() < 0.8):
+            continue
+        inner = copy.deepcopy(j["prog"])
+        inner["name"] = "inner"
+        inner["max_iter"] = 1000
+        outs = [o for n in inner["nodes"] for o in n["outputs"]]
+        gn = IR.graph_node(inner, name="inner", inputs=["x"], outputs=outs)
+        outer = IR.prog("top", [IR.func("P", ["u"], ["x"]), gn, IR.func("Q", [outs[-1]], ["q"])], max_iter=10)
+        nested.append((gen.job(0, outer, [["u", "in.u"]], mode=j["mode"]), "nested/" + tag))
+    pairs += nested
     n_rand = 4000 if thorough else 700
     tries = 0
     while n_rand > 0 and tries < 60000:
